@@ -194,13 +194,13 @@ end Desper.World
 namespace Desper.World
 open Desper
 
-theorem tabInv_removeComponent {U : Universe} {s : St} (h : TabInv U s) (e : Ent) (t : Ty) :
+theorem tabInv_removeComponent {U : Universe} [U.NoReenter] {s : St} (h : TabInv U s) (e : Ent) (t : Ty) :
     TabInv U (removeComponent U s e t).1 := by
   rcases removeComponent_spec U s e t with ⟨_, heq⟩ | ⟨st, c, _, _, _, hsame⟩
   · rw [heq]; exact h
   · exact tabInv_sameTables (tabInv_detach h e st) hsame
 
-theorem tabInv_removeTypes {U : Universe} {s : St} (h : TabInv U s) (e : Ent) (ts : List Ty) :
+theorem tabInv_removeTypes {U : Universe} [U.NoReenter] {s : St} (h : TabInv U s) (e : Ent) (ts : List Ty) :
     TabInv U (removeTypes U s e ts).1 := by
   induction ts generalizing s with
   | nil => exact h
@@ -221,7 +221,7 @@ theorem tabInv_foldAttach {U : Universe} (e : Ent) (cs : List Obj) {s : St} (h :
   | nil => exact h
   | cons c cs ih => exact ih (tabInv_attachTables h e c)
 
-theorem tabInv_createEntity {U : Universe} {s : St} (h : TabInv U s) (id? : Option Ent)
+theorem tabInv_createEntity {U : Universe} [U.NoReenter] {s : St} (h : TabInv U s) (id? : Option Ent)
     (cs : List Obj) : TabInv U (createEntity U s id? cs).1 := by
   unfold createEntity
   have key : ∀ (s0 : St) (e : Ent), TabInv U s0 →
@@ -247,7 +247,7 @@ theorem tabInv_createEntity {U : Universe} {s : St} (h : TabInv U s) (id? : Opti
     simp only
     exact key _ _ (tabInv_of_tables h rfl rfl)
 
-theorem tabInv_addComponent {U : Universe} {s : St} (h : TabInv U s) (e : Ent) (c : Obj) :
+theorem tabInv_addComponent {U : Universe} [U.NoReenter] {s : St} (h : TabInv U s) (e : Ent) (c : Obj) :
     TabInv U (addComponent U s e c).1 := by
   unfold addComponent
   simp only
@@ -265,7 +265,7 @@ theorem tabInv_addComponent {U : Universe} {s : St} (h : TabInv U s) (e : Ent) (
     · exact tabInv_removeComponent h e (tyOf U c)
     · exact h
 
-theorem tabInv_deleteEntity {U : Universe} {s : St} (h : TabInv U s) (e : Ent) (imm : Bool) :
+theorem tabInv_deleteEntity {U : Universe} [U.NoReenter] {s : St} (h : TabInv U s) (e : Ent) (imm : Bool) :
     TabInv U (deleteEntity U s e imm).1 := by
   unfold deleteEntity
   split
@@ -274,7 +274,7 @@ theorem tabInv_deleteEntity {U : Universe} {s : St} (h : TabInv U s) (e : Ent) (
     · exact tabInv_removeTypes h e _
   · exact tabInv_of_tables h rfl rfl
 
-theorem tabInv_sweep {U : Universe} {s : St} (h : TabInv U s) (es : List Ent) :
+theorem tabInv_sweep {U : Universe} [U.NoReenter] {s : St} (h : TabInv U s) (es : List Ent) :
     TabInv U (sweep U s es).1 := by
   induction es generalizing s with
   | nil => exact h
@@ -291,7 +291,7 @@ theorem tabInv_sweep {U : Universe} {s : St} (h : TabInv U s) (es : List Ent) :
         · exact ih h1
         all_goals exact h1
 
-theorem tabInv_process {U : Universe} {s : St} (h : TabInv U s) (dt : String) :
+theorem tabInv_process {U : Universe} [U.NoReenter] {s : St} (h : TabInv U s) (dt : String) :
     TabInv U (process U s dt).1 := by
   unfold process
   have h1 : TabInv U (clearDead U s).1 := by
@@ -307,14 +307,14 @@ theorem tabInv_process {U : Universe} {s : St} (h : TabInv U s) (dt : String) :
     · exact tabInv_sameTables h1 (runProcs_tables U s' dt _)
     all_goals exact h1
 
-theorem removeProcessor_ents (U : Universe) (s : St) (t : Ty) :
+theorem removeProcessor_ents (U : Universe) [U.NoReenter] (s : St) (t : Ty) :
     (removeProcessor U s t).1.ents = s.ents ∧ (removeProcessor U s t).1.comps = s.comps ∧
     (U.Passive → (removeProcessor U s t).1.dead = s.dead) ∧ (removeProcessor U s t).1.nextId = s.nextId := by
   rcases removeProcessor_spec U s t with ⟨_, heq⟩ | ⟨st, p, _, _, _, hsame⟩
   · rw [heq]; exact ⟨rfl, rfl, fun _ => rfl, rfl⟩
   · exact ⟨hsame.ents, hsame.comps, hsame.dead, hsame.nextId⟩
 
-theorem addProcessor_ents (U : Universe) (s : St) (p : Obj) (prio? : Option Int) :
+theorem addProcessor_ents (U : Universe) [U.NoReenter] (s : St) (p : Obj) (prio? : Option Int) :
     (addProcessor U s p prio?).1.ents = s.ents ∧ (addProcessor U s p prio?).1.comps = s.comps ∧
     (U.Passive → (addProcessor U s p prio?).1.dead = s.dead) ∧
     (addProcessor U s p prio?).1.nextId = s.nextId := by
@@ -340,7 +340,7 @@ theorem addProcessor_ents (U : Universe) (s : St) (p : Obj) (prio? : Option Int)
     · exact removeProcessor_ents U s _
     · exact ⟨rfl, rfl, fun _ => rfl, rfl⟩
 
-theorem tabInv_deleteAll {U : Universe} {s : St} (h : TabInv U s) (es : List Ent) :
+theorem tabInv_deleteAll {U : Universe} [U.NoReenter] {s : St} (h : TabInv U s) (es : List Ent) :
     TabInv U (deleteAll U s es).1 := by
   induction es generalizing s with
   | nil => exact h
@@ -354,7 +354,7 @@ theorem tabInv_deleteAll {U : Universe} {s : St} (h : TabInv U s) (es : List Ent
       · exact ih h1
       all_goals exact h1
 
-theorem tabInv_removeProcs {U : Universe} {s : St} (h : TabInv U s) (ps : List Obj) :
+theorem tabInv_removeProcs {U : Universe} [U.NoReenter] {s : St} (h : TabInv U s) (ps : List Obj) :
     TabInv U (removeProcs U s ps).1 := by
   induction ps generalizing s with
   | nil => exact h
@@ -370,7 +370,7 @@ theorem tabInv_removeProcs {U : Universe} {s : St} (h : TabInv U s) (ps : List O
       · exact ih h1
       all_goals exact h1
 
-theorem tabInv_clear {U : Universe} {s : St} (h : TabInv U s) : TabInv U (clear U s).1 := by
+theorem tabInv_clear {U : Universe} [U.NoReenter] {s : St} (h : TabInv U s) : TabInv U (clear U s).1 := by
   unfold clear
   have h1 := tabInv_deleteAll h (Dict.keys s.ents)
   cases hx : deleteAll U s (Dict.keys s.ents) with
@@ -387,7 +387,7 @@ theorem tabInv_clear {U : Universe} {s : St} (h : TabInv U s) : TabInv U (clear 
         all_goals exact h3
     all_goals exact h1
 
-theorem tabInv_step {U : Universe} {s : St} (h : TabInv U s) (op : Op) : TabInv U (step U s op).1 := by
+theorem tabInv_step {U : Universe} [U.NoReenter] {s : St} (h : TabInv U s) (op : Op) : TabInv U (step U s op).1 := by
   cases op with
   | create id? cs => exact tabInv_createEntity h id? cs
   | add e c => exact tabInv_addComponent h e c
@@ -401,7 +401,7 @@ theorem tabInv_step {U : Universe} {s : St} (h : TabInv U s) (op : Op) : TabInv 
   | enable b => exact tabInv_sameTables h (setEnabled_tables U s b)
   | dispatch ev args => exact tabInv_sameTables h (dispatchPlain_tables U s ev args)
 
-theorem tabInv_run {U : Universe} {s : St} (h : TabInv U s) (ops : List Op) : TabInv U (run U s ops) := by
+theorem tabInv_run {U : Universe} [U.NoReenter] {s : St} (h : TabInv U s) (ops : List Op) : TabInv U (run U s ops) := by
   induction ops generalizing s with
   | nil => exact h
   | cons op ops ih => exact ih (tabInv_step h op)
